@@ -1,6 +1,64 @@
-From LD Require Import Base F32 Data Model Ops Bucket Eval EvalFacts.
-(* first obligation; the full statements of DESIGN.md section 6 are added as they are proved *)
-Theorem C17_invalid_ctx_untouched : forall re_ok re_match o E P f,
-  run re_ok re_match o E P CInvalid f = Done (mkoutcome (err_detail KUserNotSpecified) false []).
-Proof. exact run_invalid. Qed.
-Print Assumptions C17_invalid_ctx_untouched.
+(* C17 Decoder robustness and leniency (partial: byte-level behaviour -- no panic on arbitrary bytes, zero value on
+   error, destination untouched -- is explored on the real decoder at run time; the statements below are about the
+   document tree, which is what the decoder sees after tokenising) *)
+From LD Require Import Base F32 Data Model Ops Codec CodecFacts.
+
+Theorem C17_unknown_ignored_flag : forall pre k v post,
+  unknown flag_names k -> decode_flag (JObj (pre ++ (k, v) :: post)) = decode_flag (JObj (pre ++ post)).
+Proof. exact decode_flag_ignores_unknown. Qed.
+Print Assumptions C17_unknown_ignored_flag.
+Theorem C17_unknown_ignored_segment : forall pre k v post,
+  unknown segment_names k -> decode_segment (JObj (pre ++ (k, v) :: post)) = decode_segment (JObj (pre ++ post)).
+Proof. exact decode_segment_ignores_unknown. Qed.
+Print Assumptions C17_unknown_ignored_segment.
+Theorem C17_unknown_ignored_clause : forall pre k v post,
+  unknown clause_names k -> rd_clause (JObj (pre ++ (k, v) :: post)) = rd_clause (JObj (pre ++ post)).
+Proof. exact rd_clause_ignores_unknown. Qed.
+Print Assumptions C17_unknown_ignored_clause.
+Theorem C17_unknown_ignored_rule : forall pre k v post,
+  unknown rule_names k -> rd_rule (JObj (pre ++ (k, v) :: post)) = rd_rule (JObj (pre ++ post)).
+Proof. exact rd_rule_ignores_unknown. Qed.
+Print Assumptions C17_unknown_ignored_rule.
+Theorem C17_unknown_ignored_target : forall pre k v post,
+  unknown target_names k -> rd_target (JObj (pre ++ (k, v) :: post)) = rd_target (JObj (pre ++ post)).
+Proof. exact rd_target_ignores_unknown. Qed.
+Print Assumptions C17_unknown_ignored_target.
+
+(* an explicit null means the same as omission *)
+Theorem C17_null_is_omission_flag : forall n rest,
+  In n nullable_flag_names -> decode_flag (JObj ((s n, JNull) :: rest)) = decode_flag (JObj rest).
+Proof. exact flag_null_is_omission. Qed.
+Print Assumptions C17_null_is_omission_flag.
+Theorem C17_null_is_omission_segment : forall n rest,
+  In n nullable_segment_names -> decode_segment (JObj ((s n, JNull) :: rest)) = decode_segment (JObj rest).
+Proof. exact segment_null_is_omission. Qed.
+Print Assumptions C17_null_is_omission_segment.
+Theorem C17_null_is_omission_rule : forall n rest,
+  In n ["clauses"; "variation"; "rollout"]%string -> rd_rule (JObj ((s n, JNull) :: rest)) = rd_rule (JObj rest).
+Proof. exact rule_null_is_omission. Qed.
+Print Assumptions C17_null_is_omission_rule.
+Theorem C17_null_is_omission_clause : forall n rest,
+  In n ["values"; "attribute"]%string -> rd_clause (JObj ((s n, JNull) :: rest)) = rd_clause (JObj rest).
+Proof. exact clause_null_is_omission. Qed.
+Print Assumptions C17_null_is_omission_clause.
+Theorem C17_null_is_omission_rollout : forall n rest out,
+  In n ["seed"; "bucketBy"]%string -> rd_rollout (JObj ((s n, JNull) :: rest)) out = rd_rollout (JObj rest) out.
+Proof. exact rollout_null_is_omission. Qed.
+Print Assumptions C17_null_is_omission_rollout.
+Theorem C17_null_is_omission_segment_rule : forall n rest,
+  In n ["clauses"; "weight"; "bucketBy"]%string -> rd_segrule (JObj ((s n, JNull) :: rest)) = rd_segrule (JObj rest).
+Proof. exact segrule_null_is_omission. Qed.
+Print Assumptions C17_null_is_omission_segment_rule.
+(* ... except a rollout's variations *)
+Theorem C17_rollout_variations_null_is_an_error : forall rest out,
+  rd_rollout (JObj ((s "variations", JNull) :: rest)) out = None.
+Proof. exact rollout_null_variations_is_an_error. Qed.
+Print Assumptions C17_rollout_variations_null_is_an_error.
+
+(* a wrongly typed property yields an error, not a partial value *)
+Theorem C17_wrong_type_is_error : forall v rest, (forall x, v <> JStr x) -> decode_flag (JObj ((s "key", v) :: rest)) = None.
+Proof. exact decode_flag_wrong_type_key. Qed.
+Print Assumptions C17_wrong_type_is_error.
+Theorem C17_not_an_object_is_error : forall v, (forall ps, v <> JObj ps) -> decode_flag v = None.
+Proof. exact decode_flag_not_object. Qed.
+Print Assumptions C17_not_an_object_is_error.
